@@ -112,8 +112,9 @@ func (e *encoder) enc(sb *strings.Builder, v reflect.Value) {
 			return
 		}
 		type kv struct {
-			k string
-			v reflect.Value
+			k  string
+			v  reflect.Value
+			vs string
 		}
 		var items []kv
 		it := v.MapRange()
@@ -121,16 +122,32 @@ func (e *encoder) enc(sb *strings.Builder, v reflect.Value) {
 			var kb strings.Builder
 			ke := &encoder{o: EncOpt{NormZero: true}, ids: map[uintptr]int{}} // keys are value types; == normalises zero
 			ke.enc(&kb, it.Key())
-			items = append(items, kv{kb.String(), it.Value()})
+			item := kv{k: kb.String(), v: it.Value()}
+			if !e.o.Sharing {
+				// keys that hold pointers can be distinct and still encode alike: break ties by the value
+				var vb strings.Builder
+				e.enc(&vb, it.Value())
+				item.vs = vb.String()
+			}
+			items = append(items, item)
 		}
-		sort.Slice(items, func(i, j int) bool { return items[i].k < items[j].k })
+		sort.Slice(items, func(i, j int) bool {
+			if items[i].k != items[j].k {
+				return items[i].k < items[j].k
+			}
+			return items[i].vs < items[j].vs
+		})
 		sb.WriteString("{")
 		for i, it := range items {
 			if i > 0 {
 				sb.WriteString(",")
 			}
 			sb.WriteString(it.k + ":")
-			e.enc(sb, it.v) // values visited in key order, so sharing ids do not depend on map iteration order
+			if !e.o.Sharing {
+				sb.WriteString(it.vs)
+			} else {
+				e.enc(sb, it.v) // values visited in key order, so sharing ids do not depend on map iteration order
+			}
 		}
 		sb.WriteString("}")
 	case reflect.Struct:
